@@ -126,11 +126,9 @@ static unsigned g_p[4], g_n;
 static void mk_list(struct CollectionData *c, _Bool pairs) {
   g_n = in_u8();
   __CPROVER_assume(g_n <= 4 && (!pairs || g_n % 2 == 0));
-  for (int k = 0; k < 4; k++) {
-    g_p[k] = in_u8();
-    __CPROVER_assume(g_p[k] < NS);
-    for (int j = 0; j < k; j++) __CPROVER_assume(g_p[j] != g_p[k]);
-  }
+  /* which store entries make up the list is harness-internal naming (the code sees only the symbolic ids and the
+   * addresses, which it never orders), so entries 0..g_n-1 in that order are taken without loss of generality */
+  for (int k = 0; k < 4; k++) g_p[k] = k;
   for (unsigned k = 0; k < 4; k++)
     if (k < g_n) g_slots[g_p[k]].next_ = (k + 1 < g_n) ? g_id[g_p[k + 1]] : NSLOT;
   c->head_ = g_n ? g_id[g_p[0]] : NSLOT;
